@@ -49,8 +49,7 @@ def openValidB (S : Schema) : Nat → Nat → List Node → Bool
     canonicalMarks S m && leftOpenValidB S a k && rightOpenValidB S (b + 1) (n :: rest)
   | _ + 1, _ + 1, _ => false
 
-/-- the parts of the guard, for reporting: `(shape, payload, structure checks of the inverse, gap between
-    complete children, pair-alignment of the inverse's cuts)`; `none` for the other six step kinds -/
+/-- the parts of the guard, for reporting: `(shape, payload, structure checks of the inverse, fit guard `gapFitsBack`, pair-alignment of the inverse's cuts)`; `none` for the other six step kinds -/
 def structGuardParts (S : Schema) (s : Step) (d d' : Node) : Option (Bool × Bool × Bool × Bool × Bool) :=
   match s with
   | .replace f _ sl _ =>
@@ -67,13 +66,20 @@ def structGuardParts (S : Schema) (s : Step) (d d' : Node) : Option (Bool × Boo
       | .error _ => true
     let hst := !b || (contentBetween d' f (f + ins) == some false &&
       contentBetween d' (f + ins + (gt - gf)) (f + sl.size.toNat + (gt - gf)) == some false)
-    let clean := match d.slice f t with
-      | .ok old => gapClean old.content none (gf - f + old.openStart) (gt - f + old.openStart)
-      | .error _ => true
+    let clean := gapFitsBack S d f t gf gt
     let al := alignedAtB d'.kids f && alignedAtB d'.kids (f + sl.size.toNat + (gt - gf)) &&
       alignedAtB d'.kids (f + ins) && alignedAtB d'.kids (f + ins + (gt - gf))
     some (shape, payload, hst, clean, al)
   | _ => none
+
+/-- the structural sufficient condition for the fit guard (`gapFitsBack_of_clean_apply`), for reporting -/
+def gapCleanOf (s : Step) (d : Node) : Bool :=
+  match s with
+  | .replaceAround f t gf gt _ _ _ =>
+    match d.slice f t with
+    | .ok old => gapClean old.content none (gf - f + old.openStart) (gt - f + old.openStart)
+    | .error _ => false
+  | _ => true
 
 /-- **`FamilyGuard` for a replace / replace-around step**, executable -/
 def structGuardB (S : Schema) (s : Step) (d d' : Node) : Bool :=
